@@ -349,6 +349,13 @@ class Ctx:
             "known_findings_hit": [s for s, _ in self.known_hits],
             "broken_obligations": [w for w, _ in self.broken],
         }
+        # keys the evidence schema types stay with the machinery; a harness's free-form note under such a name is filed under note_<name>
+        typed = {"evaluations": int, "distinct_nontrivial": int, "states": int, "transitions": int, "traces_validated_against_impl": int,
+                 "obligations": int, "discharged": int, "programs": int, "disagreements_checked": int, "exhaustive": bool,
+                 "checker_cmd": str, "trusted_base": str, "explanation": str, "samples": list}
+        for k, v in list(self.coverage_extra.items()):
+            if k in typed and not (isinstance(v, typed[k]) and not (typed[k] is int and isinstance(v, bool))):
+                self.coverage_extra["note_" + k] = self.coverage_extra.pop(k)
         cov.update(self.coverage_extra)
         ev = {"property_id": self.pid, "tier": self.tier, "seed": self.seed, "level": self.level,
               "coverage": cov, "assumptions": self.assumptions, "wall_s": round(wall, 2),
